@@ -65,7 +65,7 @@ def helper_accessors():
 def content_tree(obj):
     """What an object IS (not what it has cached): array + mask for structures, public non-cached attributes otherwise."""
     if hasattr(obj, "_array") and hasattr(type(obj), "with_new_array"):
-        return {"<value>": compare.digest(compare.canon(obj))}
+        return {"<value>": compare.fast_fp(obj)}
     d = getattr(obj, "__dict__", None)
     if not d:
         return {}
@@ -86,10 +86,10 @@ def _attr_digest(v, depth):
     if depth > 0 and catalog.is_library_object(v) and hasattr(v, "__dict__") and not hasattr(v, "_array"):
         skip = set(catalog.cached_names(type(v))) | {"run_time_dict"}
         items = tuple((k, _attr_digest(x, depth - 1)) for k, x in sorted(v.__dict__.items()) if k not in skip and not k.startswith("__"))
-        return compare.digest(("state", type(v).__name__, items))
+        return ("state", type(v).__name__, items)
     if isinstance(v, (list, tuple)) and len(v) <= 8 and depth > 0 and any(catalog.is_library_object(x) for x in v):
-        return compare.digest(("seq", tuple(_attr_digest(x, depth - 1) for x in v)))
-    return compare.digest(compare.canon(v))
+        return ("seq", tuple(_attr_digest(x, depth - 1) for x in v))
+    return compare.fast_fp(v)
 
 
 def rebuild_from_contents(obj):
@@ -398,7 +398,7 @@ class PuritySim:
                         del seen[n]
                 for n in names:
                     val = d[n]
-                    fp = (val, compare.digest(compare.canon(val)))
+                    fp = (val, compare.fast_fp(val))
                     old = seen.get(n)
                     seen[n] = fp
                     if old is not None and old[0] is fp[0] and old[1] != fp[1]:
